@@ -123,6 +123,20 @@ def make_vector(L, kind, spec):
             if a == 0 and b == 0:
                 a = rng.choice([-1, 1])
             vec[k] = [a, b]
+    elif spec["type"] == "ireal":
+        # i times a real-valued function, held in the complex layout: c(l,-m) = -(-1)^m conj... built from a Hermitian vector
+        rng = random.Random(spec["seed"])
+        for (l, m) in order:
+            if m < 0:
+                continue
+            a, b = rng.randint(-5, 5), (rng.randint(-5, 5) if m else 0)
+            if a == 0 and b == 0:
+                a = 1
+            s = -1 if m & 1 else 1
+            # real function: c(l,m) = a + ib, c(l,-m) = s (a - ib); times i: (-b + ia), s (b + ia)
+            vec[pos[(l, m)]] = [-b, a]
+            if m:
+                vec[pos[(l, -m)]] = [s * b, s * a]
     else:                                   # explicit channels: [[l, m, re, im], ...]
         for l, m, a, b in spec["chan"]:
             vec[pos[(l, m)]] = [a, b]
@@ -278,7 +292,7 @@ def drive(recipe):
     epts = [(rng.uniform(0.05, math.pi - 0.05), rng.uniform(0.0, 2 * math.pi)) for _ in range(ne)]
     if ne >= 4:
         # the poles themselves and points a fraction of a degree away from them (all m != 0 terms vanish only AT the pole)
-        near = [0.0, math.pi, 1.0e-3, 3.0e-3, math.pi - 2.0e-3, 4.4e-3, 0.0, math.pi - 1.0e-3]
+        near = [0.0, math.pi, 1.0e-3, 3.0e-3, math.pi - 2.0e-3, 4.4e-3, 1.0e-12, math.pi - 1.0e-12]
         for k in range(min(3, ne // 2)):
             epts[k] = (near[(recipe["seed"] + 3 * k) % len(near)], epts[k][1])
     t["ne"] = ne
@@ -431,6 +445,10 @@ def recipes_for(ctx):
                            "g1": sparse_spec(L, kind, rng, 1), "g2": sparse_spec(L, kind, rng, 1),
                            "k1": rng.choice([-3, -2, 2, 3]), "k2": rng.choice([-3, -2, 2, 3]),
                            "scale2": (0, -50, 40)[v % 3] if (L + v) % 2 else (-50, 0, 40)[v % 3], "single": (L + v) % 3 == 0})
+            if kind == "cplx" and L <= 20:
+                # a purely imaginary function (i times a real one) held in a complex array
+                rs.append({"L": L, "kind": kind, "vec": {"type": "ireal", "seed": nxt()}, "prog": "main", "seed": nxt(),
+                           "g1": sparse_spec(L, kind, rng, 1), "g2": sparse_spec(L, kind, rng, 1), "k1": 2, "k2": -3})
             if L <= 12:
                 for (l, m) in order:
                     a, b = rng.choice([-3, -2, -1, 1, 2, 3]), rng.choice([-3, -2, -1, 1, 2, 3])
